@@ -1,6 +1,6 @@
 """Attribution of trace-validation reports to the listed properties."""
 
-CANISTER_PROPS = ["C01", "C02", "C03", "C04", "C05", "C06", "C07", "C08", "C09", "C10", "C13", "C14", "C15", "C20"]
+CANISTER_PROPS = ["C01", "C02", "C03", "C04", "C05", "C06", "C07", "C08", "C09", "C10", "C13", "C14", "C15", "C16", "C19", "C20"]
 
 
 def _filter_kind(tag):
@@ -41,6 +41,14 @@ def props_of(rep, rec=None):
         out |= {"C02"}
     elif tag.startswith("gate."):
         out |= {"C14"}
+        if tag.endswith("send_transaction"):
+            out |= {"C19"}
+    elif tag.startswith("cycles."):
+        out |= {"C16"}
+    elif tag.startswith("sendtx."):
+        out |= {"C19"}
+        if tag == "sendtx.trapReason":
+            out |= {"C14", "C16"}
     elif tag == "fees.values" or tag == "post.fee":
         out |= {"C15"}
     elif tag == "config.value" or tag == "post.cfg":
